@@ -98,6 +98,7 @@ ASSUMPTIONS = [
 def run_plan(property_id, tier, report, extra=None, rule=None):
     core.import_repo()
     first_vectors = None
+    all_vectors = None
     for name, fmts, require, max_replay, simulate, depth in PLANS[property_id][tier]:
         cfg = "Session_%s.cfg" % name
         if not fmts:
@@ -108,6 +109,7 @@ def run_plan(property_id, tier, report, extra=None, rule=None):
         vectors = session_check.explore(report, property_id, "Session %s" % name, cfg, fmts=fmts, require=require,
                                         max_replay=max_replay, simulate=simulate, depth=depth, module=MODULES[cfg],
                                         timeout=6000)
+        all_vectors = (all_vectors or []) + list(vectors)
         if first_vectors is None:
             first_vectors = vectors
     for name, what in PINNED.get(property_id, []):
@@ -124,6 +126,10 @@ def run_plan(property_id, tier, report, extra=None, rule=None):
                                           "sample of the TLC-generated histories replayed with the hooks on",
                                           demo=not report.violations)
     if property_id == "C08":
+        parked = [v for v in (all_vectors or []) if any(e["run"].get("deferred") for e in v["hist"])]
+        if parked:
+            trace_drivers.sample_and_validate(report, parked, 150 if tier == "quick" else 2000,
+                                              "sample of the histories with a reader that is created early and read late, hooks on")
         trace_drivers.random_programs(report, 100 if tier == "quick" else 3000)
         trace_drivers.test_suite(report)
     if extra is not None:
